@@ -19,14 +19,21 @@ fn h(x: &u64) -> String {
 }
 
 pub fn corr(ctx: &mut Ctx) {
-    let ncases = ctx.n(40, 500);
+    let ncases = ctx.n(90, 900);
     for c in 0..ncases {
         let mut rng = ctx.rng.fork();
         let m = [1usize, 2, 3, 8, 16, 64][c as usize % 6];
-        let nh = rng.below(3 * m as u64 + 5) as usize; // history length (may be 0)
-        let nx = 1 + rng.below(2 * m as u64 + 5) as usize;
-        let base = gen_stream(&mut rng, nh.max(1));
-        let hist = perturb(&mut rng, &base);
+        // history classes: empty, exactly one item, two or three distinct items (stale per-item state of the
+        // FIRST items survives only short histories), random with repetitions, long
+        let hist: Vec<u64> = match (c / 6) % 5 {
+            0 => vec![],
+            1 => gen_stream(&mut rng, 1),
+            2 => { let k = 2 + rng.below(2) as usize; gen_stream(&mut rng, k) }
+            3 => { let nh = 1 + rng.below(3 * m as u64 + 5) as usize; let base = gen_stream(&mut rng, nh); perturb(&mut rng, &base) }
+            _ => { let base = gen_stream(&mut rng, 6 * m + 20); perturb(&mut rng, &base) }
+        };
+        ctx.count(&format!("history={}", ["empty", "one item", "2-3 items", "random", "long"][(c as usize / 6) % 5]));
+        let nx = if c % 2 == 0 { 1 + rng.below(3) as usize } else { 1 + rng.below(2 * m as u64 + 5) as usize };
         let xs = gen_stream(&mut rng, nx);
 
         // ---------------- SuperMinHash<f64>
@@ -100,7 +107,7 @@ pub fn corr(ctx: &mut Ctx) {
             ctx.mark_nontrivial();
             ctx.op(&format!("dens new{} a {}", sfx, m));
             for x in &hist { d.sketch(x); ctx.op(&format!("dens sk{} a {}", sfx, h(x))); }
-            if c % 2 == 0 { d.end_sketch(); ctx.op(&format!("dens end{} a {}", sfx, alg)); }
+            if c % 2 == 0 && !hist.is_empty() { d.end_sketch(); ctx.op(&format!("dens end{} a {}", sfx, alg)); } // (finishing an empty stream reports failure: C09)
             d.reinit();
             ctx.op(&format!("dens reinit{} a", sfx));
             let ok = d.sketch_slice(&xs);
